@@ -69,6 +69,22 @@ def oracle_fails(pid, rec):
 NOT_APPLICABLE = {}
 
 PROPS = {
+    "C15": {
+        "manifest_text": "Lean 4 theorems (29) for all 64-bit operands and all doubles: on integer operands plus/minus/times/abs/at_least/at_most equal the mathematical result when it fits in 64 bits and otherwise continue in floating point (after the fix: commit), divided_by/modulo satisfy a = q*b + r with |r| < |b|, zero divisors are errors, no panic site is reachable, a float operand never takes the integer path and the result is the named IEEE operation (glue), floor/ceil/round are the neighbouring integers with ties away from zero for every double within the 64-bit range (on the exact rational reading of the bit pattern), numeric strings behave like the numbers they spell. Tied to /repo by a differential run of the model and of an independent executable spec on the property's boundary grid in all encodings plus random operands, floats compared by bit pattern.",
+        "manifest_note": "Trusted: Lean kernel + allowed axioms, theorem statements, hand-written model of math.rs (validated differentially). IEEE + - x / and powi are parameters of the model (glue theorems only), instantiated with hardware doubles in the driver; str::parse::<f64> is modelled as correctly rounded and validated per case.",
+        "technique": "Lean 4 proof (integer arithmetic with explicit i64 bounds, exact rational reading of doubles) + differential correspondence",
+        "design_ref": "DESIGN.md section 7 C15",
+        "rule": "cases = the property's quantifier: all pairs of the boundary set {0,+-1,+-2,+-3,+-7,10,+-2^31,+-2^62,MAX-1,MAX,MIN,MIN+1} (+ the multiplication boundary 3037000499/3037000500, +-(2^53+1), 2^31-1) in all 3x3 encodings (integer, numeric string, float) for the 7 binary filters and in 3 encodings for abs/ceil/floor/round; all pairs of k/8, |k|<=40 as floats (every .5 tie) for the 7 binary filters (+ strings/mixed on a sub-grid in quick, full in thorough); special doubles (+-0, +-inf, NaN, subnormal, MAX, +-2^63, 0.49999999999999994, 2^52+-0.5); round with 22 decimal-places arguments; non-numbers/arity; random 64-bit integers / doubles / numeric strings (25k quick, 600k thorough); a divided_by+modulo pair line for every integer pair; non-trivial = distinct input whose observation is not an empty output (all are)",
+        "explanation": "Lean theorems C15_* about the model of filters/math.rs with the checked-arithmetic repair (int path exact-or-float, division identity, zero divisor, no panic site reachable, float glue, floor/ceil/round bounds on the semantic reading of doubles, numeric strings via parse::<i64>/parse::<f64> models) + differential run of model and of an independent executable spec (Spec/C15.lean: big-integer arithmetic, native IEEE doubles, defining property of fmod, rounding bounds, string-vs-number agreement) against the real crate; floats compared by bit pattern (all NaNs identified)",
+        "exhaustive": True,
+        "assumptions": [
+            "IEEE + - x / and 10f64.powi(n) are external parameters of the model (FloatOps), instantiated in the driver with hardware doubles via Float.ofBits/toBits (powi by the compiler-builtins __powidf2 loop); theorems about the float path are glue theorems",
+            "float % (fmod) has no native counterpart in Lean: the driver uses the exact integer model fmodBits, validated bit-for-bit against Rust's % and independently by the spec's defining property of fmod",
+            "str::parse::<f64> is modelled as correctly-rounded decimal->binary64 (parseF64); validated on every string case, proved only for integer spellings",
+            "ceil/floor/round convert integer inputs through f64 first (as the code does), so |n| > 2^53 loses precision and MAX-1 | ceil = MAX: outside the property's statement (floats only), recorded as an observation",
+        ],
+        "trusted": ["hardware IEEE-754 double arithmetic as exposed by Lean's Float (driver side) and by Rust (implementation side)"],
+    },
     "C16": {
         "manifest_text": "Lean 4 theorems for all strings (28, incl. escape output in (Safe|Entity)*, unescape∘escape = id, escape_once idempotent / keeps existing entities / fixed on escape output, url_encode alphabet and shape, UTF-8 encode/decode round trip, url_decode∘url_encode = ok id, invalid decoded UTF-8 is an error, strip_html output has no complete <...> tag, is a subsequence of its input and leaves tag-free text unchanged, no filter can panic) about hand-written models of html.rs and url.rs (+ percent-encoding's table and from_utf8's validation), tied to /repo by exhaustive differential runs over the property's three alphabets and by evaluating the executable spec predicates on the implementation's own outputs.",
         "manifest_note": "Trusted: Lean kernel + allowed axioms (three 256-entry byte tables closed by decide +kernel), theorem statements, hand-written models (validated differentially). The regex engine (leftmost-first, lazy star, Unicode simple case folding), percent-encoding and core::str::from_utf8 are modelled from their sources and compared on every run, not verified.",
